@@ -5,7 +5,9 @@ pub mod c02;
 pub mod c03;
 pub mod c04;
 pub mod c05;
+pub mod c06;
 pub mod c07;
+pub mod c08;
 pub mod c11;
 pub mod c16;
 pub mod c17;
@@ -24,7 +26,9 @@ pub fn all() -> Vec<Prop> {
         Prop { id: "C03", run: c03::run, replay: c03::replay, rule: c03::RULE, assumptions: &["the printer in harness/src/engine/printer.rs is my reading of ISO 32000-1 7.2-7.3", "std's decimal->f32 conversion is correctly rounded (used to define the denoted value of a real)"] },
         Prop { id: "C04", run: c04::run, replay: c04::replay, rule: c04::RULE, assumptions: &["placement strings (\"N G obj\\n\" .. \"endobj\\n\") mirror Storage::save"] },
         Prop { id: "C05", run: c05::run, replay: c05::replay, rule: c05::RULE, assumptions: &["harness encoders follow ISO 32000-1 7.4 (LZW cross-checked against weezl in unit tests; Flate from flate2)"] },
+        Prop { id: "C06", run: c06::run, replay: c06::replay, rule: c06::RULE, assumptions: &["harness/src/engine/crypt.rs implements Algorithms 1, 1.A, 2, 2.B, 3, 4, 5, 8, 9, 10 independently (own RC4 and key schedules); MD5, SHA-2 and AES primitives come from crates and are trusted", "only variants the library accepts are generated (StmF == StrF, no Identity filter, V in 1,2,4,5)"] },
         Prop { id: "C07", run: c07::run, replay: c07::replay, rule: c07::RULE, assumptions: &["trees are well-formed by construction (accurate /Count, correct /Parent, acyclic)"] },
+        Prop { id: "C08", run: c08::run, replay: c08::replay, rule: c08::RULE, assumptions: &["the expansion table in harness/src/props/c08.rs is my reading of ISO 32000-1 Table A.1 (DESIGN.md Appendix B)"] },
         Prop { id: "C11", run: c11::run, replay: c11::replay, rule: c11::RULE, assumptions: &["object streams and filters are produced by the harness's own writer and encoders"] },
         Prop { id: "C16", run: c16::run, replay: c16::replay, rule: c16::RULE, assumptions: &["reference decoders in harness/src/engine/filters.rs follow ISO 32000-1 7.4 (LZW cross-checked against weezl with code size 8 in unit tests)", "flate2/miniz_oxide is a correct zlib implementation"] },
         Prop { id: "C17", run: c17::run, replay: c17::replay, rule: c17::RULE, assumptions: &["corpus files are copies of /repo/files kept under /verif/corpus/files"] },
